@@ -153,6 +153,14 @@ def instantiate(toks, P, seed, template, effects=False):
                 si = pg.stmt({"k": "decl0", "x": v})
                 lines.append((ind, "var %s;" % v, [], si, 0))
                 return si
+        if t == "DL":
+            v = new_local()
+            pg.locals_.append(v)
+            lv_ = rnd.choice([0, 1, 2])
+            ei = pg.node({"k": "num", "v": lv_})
+            si = pg.stmt({"k": "set", "x": v, "e": ei})
+            lines.append((ind, "var %s = %d;" % (v, lv_), [(ei, 0, 1)], si, len("var %s = " % v)))
+            return si
         if t == "D":
             v = new_local()
             if v is None:
@@ -203,13 +211,47 @@ def instantiate(toks, P, seed, template, effects=False):
             pre = "%s[%s] = " % (a, it)
             lines.append((ind, pre + et + ";", rg, si, len(pre)))
             return si
+        if t in ("SAv", "Gidx", "Qidx", "Ridx"):
+            # SemChains.tla, cursor family: arr[a] = atom (a = the first local, the write cursor); uses of arr[0] + arr[1]
+            arr = pg.arrays[0]
+            if t == "SAv":
+                v = pg.locals_[0]
+                ii = pg.node({"k": "var", "x": v})
+                pg.pending_ranges = []
+                ai, at = pg.atom(template)
+                rg = list(pg.pending_ranges) + [(ai, 0, len(at))]
+                si = pg.stmt({"k": "seti", "x": arr, "e": ai, "e2": ii})
+                pre = "%s[%s] = " % (arr, v)
+                lines.append((ind, pre + at + ";", rg, si, len(pre)))
+                return si
+            z, o = pg.node({"k": "num", "v": 0}), pg.node({"k": "num", "v": 1})
+            i0, i1 = pg.node({"k": "idx", "x": arr, "l": z}), pg.node({"k": "idx", "x": arr, "l": o})
+            top = pg.node({"k": "bin", "op": "add", "l": i0, "r": i1})
+            text = "%s[0] + %s[1]" % (arr, arr)
+            n_ = len(arr)
+            rg = [(z, n_ + 1, n_ + 2), (i0, 0, n_ + 3), (o, 2 * n_ + 7, 2 * n_ + 8), (i1, n_ + 6, 2 * n_ + 9), (top, 0, len(text))]
+            if t == "Ridx":
+                pg.has_ret = True
+                si = pg.stmt({"k": "ret", "e": top})
+                lines.append((ind, "return %s;" % text, rg, si, len("return ")))
+                return si
+            pg.nsig += 1
+            sname = "o%d" % pg.nsig
+            pg.signals.append((sname, False))
+            op = "<--" if t == "Gidx" else "<=="
+            si = pg.stmt({"k": "nop", "x": sname, "e": top, "fx": "sigset", "exported": True, "constrains": t == "Qidx"})
+            lines.append((ind, "%s %s %s;" % (sname, op, text), rg, si, len("%s %s " % (sname, op))))
+            return si
         if t in ("Sacc", "Gacc", "Qacc", "Racc"):
             # SemChains.tla: the accumulator is the first local; it is updated from itself and used after the nesting chain
             v = pg.locals_[0]
             vi = pg.node({"k": "var", "x": v})
             if t == "Sacc":
                 pg.pending_ranges = []
-                ai, at = pg.atom(False)
+                if pg.arrays:                      # cursor family: the cursor advances by one
+                    ai, at = pg.node({"k": "num", "v": 1}), "1"
+                else:
+                    ai, at = pg.atom(False)
                 arg = list(pg.pending_ranges) + [(ai, 0, len(at))]
                 off = len(v) + 3
                 top = pg.node({"k": "bin", "op": "add", "l": vi, "r": ai})
@@ -273,7 +315,7 @@ def instantiate(toks, P, seed, template, effects=False):
                     et = "%s < %d" % (counter, bound)
                     rg = [(ci, 0, len(counter)), (li, len(counter) + 3, len(counter) + 4), (ei, 0, len(et))]
                 else:
-                    pn = rnd.choice(["n", "m"])
+                    pn = ["n", "m"][ind % 2]             # nested conditions read different parameters: jointly satisfiable
                     lv = rnd.choice([0, 1, 2])
                     op = rnd.choice(["greater", "eq", "not_eq", "lesser"])
                     ci, li = pg.node({"k": "var", "x": pn}), pg.node({"k": "num", "v": lv})
@@ -396,7 +438,7 @@ def build_expr(pg, toks, pos, amap, P):
 
 
 FUNC_CTX = ["f_direct", "f_join", "f_partial", "f_loop"]
-TEMPL_CTX = ["t_direct", "t_constrain", "t_local", "t_loop", "t_join", "t_array_if", "t_array_seq", "t_operand_join"]
+TEMPL_CTX = ["t_direct", "t_constrain", "t_local", "t_loop", "t_join", "t_array_if", "t_array_seq", "t_operand_join", "t_port"]
 
 
 def expr_program(toks, ctx, P):
@@ -483,8 +525,21 @@ def expr_program(toks, ctx, P):
     else:
         amap = {"sa": sig(1), "sb": sig(2), "pn": var("n"), "lv": var("v")}
         pg.nsig = 1
-        kids.append(simple("set", "v", binx("mul", atom_expr(sig(1)), lit_expr(2)), "var v = "))
-        if ctx == "t_direct":
+        if ctx == "t_port":
+            # an output port of a sub-component is an indeterminate of its own (the third one): `sa` and the local `v` stand for it
+            port = ({"k": "sig", "v": 3, "x": "c.o"}, "c.o")
+            for line in ("component c = Sub();", "c.x <== in1;"):
+                si = pg.stmt({"k": "nop"})
+                lines.append((1, line, [], si, 0))
+                kids.append(si)
+            amap["sa"] = port
+            kids.append(simple("set", "v", binx("mul", atom_expr(port), lit_expr(2)), "var v = "))
+            kids.append(simple("nop", "o1", toks, "o1 <-- "))
+        else:
+            kids.append(simple("set", "v", binx("mul", atom_expr(sig(1)), lit_expr(2)), "var v = "))
+        if ctx == "t_port":
+            pass
+        elif ctx == "t_direct":
             kids.append(simple("nop", "o1", toks, "o1 <-- "))
         elif ctx == "t_constrain":
             kids.append(simple("nop", "o1", toks, "o1 <== "))
@@ -577,7 +632,7 @@ def assemble(pg, lines, root, template):
         start = len(text.encode()) + len(pad)
         for (ei, s0, e0) in rg:
             kc = pg.exprs[ei - 1]["k"]
-            kc = "var" if kc == "sig" else kc
+            kc = ("idx" if pg.exprs[ei - 1]["v"] == 3 else "var") if kc == "sig" else kc     # a port `c.o` is exported as an access node
             ranges[(start + off + s0, start + off + e0, kc)] = (si, ei)
         if si:
             end = start + len(t) - (1 if t.endswith(";") else 0)
@@ -742,14 +797,32 @@ def run_check(prop, tier, want, budgets=False):
             for j in range(inst):
                 text, prog, ranges, span = instantiate(toks, P, seed * 1000003 + k * 17 + j, template)
                 progs.append((text, prog, ranges, span))
+        if prop == "C06":
+            # nesting chains (SemChains.tla) with a literal initialiser: the constant known before the chain must not survive it
+            for template in (False, True):
+                cc = os.path.join(wd, "chains.cfg")
+                open(cc, "w").write("SPECIFICATION Spec\nCONSTANTS\n  Depth = %d\n  Template = %s\nINVARIANT Emit\nCHECK_DEADLOCK FALSE\n" %
+                                   (2 if tier == "quick" else 3, "TRUE" if template else "FALSE"))
+                gch = run_tlc("SemChains", cc, name, workers=2, cases_suffix="-ch%s%d" % (template, P), timeout=600)
+                for kk, x in enumerate(read_ndjson(gch.cases_path)):
+                    if x["toks"][0] != "DL":
+                        continue
+                    for j in range(inst):
+                        text, prog, ranges, span = instantiate(x["toks"], P, seed * 104729 + kk * 7 + j, template)
+                        progs.append((text, prog, ranges, span))
         # ---- second family: every expression of ExprGen.tla in the data-flow contexts
         ctxs = {"C06": FUNC_CTX, "C07": TEMPL_CTX, "C20": ["f_join", "f_loop", "t_loop", "t_join", "t_array_if", "t_operand_join"]}[prop]
+        k3 = set()          # programs with three indeterminates (in1, in2 and a component port)
         ndepth1 = len(expr_cases) - len(deep[:ndeep])
         for j, ec in enumerate(expr_cases):
             # depth-1 expressions go through every context; in the quick tier each sampled deeper one through three of them (rotating)
             use = ctxs if (j < ndepth1 or tier != "quick" or len(ctxs) <= 3) else [ctxs[(j + d) % len(ctxs)] for d in (0, 1, 3)]
             for ctx in use:
+                if ctx == "t_port" and tier == "quick" and (j % 3 or j >= ndepth1):
+                    continue        # three indeterminates: 125-point tables; the quick tier takes every third depth-1 expression
                 progs.append(expr_program(ec, ctx, P))
+                if ctx == "t_port":
+                    k3.add(len(progs) - 1)
         jobs = [{"id": i, "src": t, "prime": str(P), "passes": True} for i, (t, _, _, _) in enumerate(progs)]
         base_docs = None
         rounds = [(-1, -1)]
@@ -810,7 +883,7 @@ def run_check(prop, tier, want, budgets=False):
                 if any(s_["claims"] for s_ in union["stmts"]):
                     nonvac += 1
                 recs.append(union)
-                meta.append({"source": text, "prime": P, "budget": None,
+                meta.append({"source": text, "prime": P, "budget": None, "K": 3 if i in k3 else 2,
                              "budgets_of_claims": {"%d:%s" % (k_, key): b for (k_, key), b in where.items()}})
             pairs = []
         for i, d, bud in pairs:
@@ -829,10 +902,16 @@ def run_check(prop, tier, want, budgets=False):
             if any(s["claims"] for s in prog["stmts"]):
                 nonvac += 1
             recs.append(prog)
-            meta.append({"source": text, "prime": P, "budget": bud})
-        rej, states, gen = validate(recs, name, P)
-        total_states += states
-        total_gen += gen
+            meta.append({"source": text, "prime": P, "budget": bud, "K": 3 if i in k3 else 2})
+        rej = []
+        for K in (2, 3):
+            idxs = [j for j, m_ in enumerate(meta) if m_.get("K", 2) == K]
+            if not idxs:
+                continue
+            r_, states, gen = validate([recs[j] for j in idxs], name, P, K=K)
+            rej += [(idxs[i_], why_, nid_) for (i_, why_, nid_) in r_]
+            total_states += states
+            total_gen += gen
         nrec += len(recs)
         for idx, why, nid in rej:
             m = dict(meta[idx])
@@ -901,7 +980,7 @@ def to_effects(prog, findings, stmt_span, text):
             sites.append({"k": "param", "x": m.group(1), "sid": 0, "code": f["id"], "msg": f["msg"]})
             continue
         hit = [si for si, (a, b) in stmt_span.items() if (a, b) == (l["s"], l["e"])]
-        if len(hit) == 1 and pr["stmts"][hit[0] - 1]["k"] in ("set", "sigset"):
+        if len(hit) == 1 and pr["stmts"][hit[0] - 1]["k"] in ("set", "sigset", "seti"):
             sites.append({"k": "stmt", "x": "", "sid": hit[0], "code": f["id"], "msg": f["msg"]})
         else:
             sites.append({"k": "unmapped", "x": "", "sid": 0, "code": f["id"], "msg": f["msg"]})
@@ -932,6 +1011,13 @@ def run_effects(tier):
         gstates += g.distinct
         ggen += g.generated
         skels += [(x["toks"], template) for x in read_ndjson(g.cases_path)]
+        # skeletons with local arrays (declaration, element-wise assignment with literal or variable index; reads in the expressions)
+        open(c, "w").write("SPECIFICATION Spec\nCONSTANTS\n  MaxSteps = %d\n  MaxLen = 24\n  Template = %s\n  Arrays = TRUE\nINVARIANT Emit\nCHECK_DEADLOCK FALSE\n" %
+                           (steps - 2 if not template else steps - 3, "TRUE" if template else "FALSE"))
+        ga = run_tlc("SemGen", c, name, workers=8, cases_suffix="-arr%s" % template, timeout=1800)
+        gstates += ga.distinct
+        ggen += ga.generated
+        skels += [(x["toks"], template) for x in read_ndjson(ga.cases_path) if "DA" in x["toks"] and "SA" in x["toks"]]
     # nesting chains (SemChains.tla): an accumulator updated under every nesting of if / if-else arms / while up to the depth bound
     chains = []
     for template in (False, True):
